@@ -554,6 +554,13 @@ def setup(chk, want_emu=False):
         def tool(self, name):
             return os.path.join(art, name)
     ctx.art = Art()
+    ssrc = os.path.join(common.VERIF, "harness", "shortio_shim.c")
+    shim = os.path.join(hd, "shortio_shim-%s.so" % hashlib.md5(open(ssrc, "rb").read()).hexdigest()[:8])
+    if not os.path.exists(shim):
+        rcx, _, ex = common.run(["cc", "-shared", "-fPIC", "-O1", "-o", shim + ".tmp%d" % os.getpid(), ssrc, "-ldl"], timeout=120)
+        if rcx == 0:
+            os.rename(shim + ".tmp%d" % os.getpid(), shim)
+    ctx.shortio = shim if os.path.exists(shim) else None
     src = os.path.join(common.VERIF, "harness", "rtbuf_drv.c")
     sig = hashlib.md5(open(src, "rb").read()).hexdigest()[:8]
     hx = os.path.join(hd, "rtbuf_drv-%s-%s-a" % (build.tree, sig))
@@ -614,6 +621,11 @@ def run_chunk(ctx, cases, wd, tag, judge, prejudge=None, coq_valid=False):
     lines1 = [c.line(1) for c in cases]
     # every other chunk: the program also calls ovni_attr_flush() before each ovni_flush() (metadata only)
     env = {"RTBUF_ATTR_FLUSH": "1"} if (tag[1:].isdigit() and int(tag[1:]) % 2 == 1) else None
+    # every third chunk: the kernel transfers at most a few bytes per write(2) on stream.obs (a partial write is what
+    # POSIX allows); the file must come out the same
+    if tag[1:].isdigit() and int(tag[1:]) % 3 == 2 and getattr(ctx, "shortio", None):
+        env = dict(env or {})
+        env.update({"LD_PRELOAD": ctx.shortio, "SHORTIO_MAX": str([1, 7, 40, 1000][(int(tag[1:]) // 3) % 4])})
     impl = common.batch([ctx.hx, base], lines1, timeout=1200, env=env)
     vres = [None] * len(cases)
     if ctx.oracle:
@@ -635,7 +647,8 @@ def run_chunk(ctx, cases, wd, tag, judge, prejudge=None, coq_valid=False):
     out = []
     for c, il, a, b, cv in zip(cases, impl, m1, m0, vres):
         f = il.split(" ")
-        res = {"impl_status": f[0], "dir": f[-1] if len(f) > 1 else None, "m1": a, "m0": b, "obs": None, "emit": [], "coq_valid": cv}
+        res = {"impl_status": f[0], "dir": f[-1] if len(f) > 1 else None, "m1": a, "m0": b, "obs": None, "emit": [], "coq_valid": cv,
+               "environment": {k: (v if k != "LD_PRELOAD" else "build/harness/shortio_shim-*.so") for k, v in (env or {}).items()}}
         d = res["dir"]
         if d and os.path.isdir(d):
             try:
